@@ -526,9 +526,33 @@ def run_impl(c):
     if c["op"] == "cmp":
         gs = [gens.copy_exact(g) for g in c["graphs"]]
         try:
-            return ("ok", [bool(x) for x in mol_compare(gs[:-1], gs[-1]).tolist()], gs)
+            first = [bool(x) for x in mol_compare(gs[:-1], gs[-1]).tolist()]
         except Exception as e:
             return ("err", type(e).__name__, str(e)[:100], gs)
+        # history on the SAME target object: edit it in place (a new atom bonded to its first atom, one symbol changed),
+        # compare again - the answer must be the one a fresh call gives on copies of the current contents
+        hist = None
+        t = gens.copy_exact(gs[-1])
+        cands = [gens.copy_exact(g) for g in gs[:-1]] + [gens.copy_exact(t)]
+        try:
+            mol_compare(cands[:-1], t)
+            nodes = list(t.nodes)
+            new = max([n for n in nodes if isinstance(n, int)] + [0]) + 1
+            t.add_node(new, symbol="Cl")
+            if nodes:
+                t.add_edge(nodes[0], new, bond=1)
+                t.nodes[nodes[-1]]["symbol"] = "Si" if t.nodes[nodes[-1]].get("symbol") != "Si" else "C"
+            cands.append(gens.copy_exact(t))
+            got = [bool(x) for x in mol_compare(cands, t).tolist()]
+            want = [bool(x) for x in mol_compare([gens.copy_exact(g) for g in cands], gens.copy_exact(t)).tolist()]
+            if got != want:
+                hist = ("mol_compare on a target object that was compared before and then edited in place answers %r, a fresh "
+                        "call on copies of the same graphs answers %r" % (got, want))
+            elif not got[-1]:
+                hist = "mol_compare reports an exact copy of the (edited) target as different"
+        except Exception:
+            pass
+        return ("ok", first, hist, gs)
     if c["op"] == "smiles":
         return ("ok", smiles_roundtrip(c))
     if c["op"] == "elements":
@@ -720,6 +744,8 @@ def _py_invariants(c, out):
         gs = c["graphs"]
         if any(not gens.graphs_identical(a, b) for a, b in zip(gs, out[-1])):
             msgs.append("mol_compare mutated an argument")
+        if out[0] == "ok" and len(out) == 4 and out[2]:
+            msgs.append(out[2])
         if out[0] == "ok":
             # structural comparison is invariant under renumbering + reordering of every graph involved
             rng = lib.rng_for(c["pseed"], ID, "cmp")
